@@ -21,6 +21,7 @@ import (
 	"github.com/ozontech/file.d/metric"
 	"github.com/ozontech/file.d/pipeline"
 	_ "github.com/ozontech/file.d/plugin/output/elasticsearch"
+	_ "github.com/ozontech/file.d/plugin/output/gelf"
 	_ "github.com/ozontech/file.d/plugin/output/http"
 	_ "github.com/ozontech/file.d/plugin/output/kafka"
 	_ "github.com/ozontech/file.d/plugin/output/loki"
@@ -32,18 +33,25 @@ import (
 	"verif/simrt"
 	"verif/simrt/simfasthttp"
 	"verif/simrt/simkgo"
+	"verif/simrt/simnet"
 )
 
 func init() { core.Register(&H{}) }
 
 type Ev struct {
-	ID     int           `json:"id"`
-	Fields []string      `json:"fields"` // values of fields f0..fn (adversarial strings)
-	Svc    string        `json:"svc"`    // routing field (index / topic)
-	HasSvc bool          `json:"has_svc"`
-	Parent bool          `json:"parent,omitempty"` // child-parent kind: must be omitted from payloads
-	TS     bool          `json:"ts,omitempty"`     // carries a "ts" field (unix nanoseconds as a string; loki's timestamp field)
-	Pause  time.Duration `json:"pause,omitempty"`
+	ID     int      `json:"id"`
+	Fields []string `json:"fields"` // values of fields f0..fn (adversarial strings)
+	Svc    string   `json:"svc"`    // routing field (index / topic)
+	HasSvc bool     `json:"has_svc"`
+	Parent bool     `json:"parent,omitempty"` // child-parent kind: must be omitted from payloads
+	TS     bool     `json:"ts,omitempty"`     // carries a "ts" field (unix nanoseconds as a string; loki's timestamp field)
+	// gelf only
+	Host    string `json:"host,omitempty"`
+	HasHost bool   `json:"has_host,omitempty"`
+	Level   string `json:"level,omitempty"` // "", error, info, warn, bogus, #3 (the number 3)
+	Time    string `json:"time,omitempty"`  // "", rfc (RFC3339Nano string), num (seconds as a number), junk
+
+	Pause time.Duration `json:"pause,omitempty"`
 }
 
 type Cfg struct {
@@ -57,6 +65,7 @@ type Cfg struct {
 	Limit413  int           `json:"limit_413"` // >0: the endpoint answers 413 to bodies larger than this
 	Retry     int           `json:"retry"`
 	Copy      bool          `json:"copy_fields,omitempty"` // splunk: copy svc to fields.svc of the envelope
+	Reconnect time.Duration `json:"reconnect,omitempty"`   // gelf: reconnect_interval
 	Events    []Ev          `json:"events"`
 }
 
@@ -73,12 +82,15 @@ var nasty = []string{"plain", "", "with \"quotes\"", "back\\slash", "new\nline",
 func (h *H) Gen(rng *rand.Rand, tier, prop string) core.Cfg {
 	c := &Cfg{}
 	c.Sim = simrt.Config{PSwitch: core.Pick(rng, 0.02, 0.1, 0.3), StepCost: time.Microsecond, MaxSteps: 1_500_000, Horizon: time.Hour, Faults: map[string]float64{}}
-	c.Sink = core.Pick(rng, "es", "es", "http", "splunk", "kafka", "loki")
+	c.Sink = core.Pick(rng, "es", "es", "http", "splunk", "kafka", "loki", "gelf")
 	c.BatchSize = core.Between(rng, 1, 8)
 	c.Workers = core.Pick(rng, 1, 1, 2, 3)
 	c.Flush = core.DurBetween(rng, 10*time.Millisecond, 300*time.Millisecond)
 	c.Retry = core.Pick(rng, 0, 2, 5)
-	c.Gzip = c.Sink != "kafka" && core.Chance(rng, 0.2)
+	c.Gzip = c.Sink != "kafka" && c.Sink != "gelf" && core.Chance(rng, 0.2)
+	if c.Sink == "gelf" {
+		c.Reconnect = core.Pick(rng, 50*time.Millisecond, time.Second, time.Minute)
+	}
 	c.Copy = c.Sink == "splunk" && core.Chance(rng, 0.6)
 	if c.Sink == "es" || c.Sink == "http" {
 		c.Split = core.Chance(rng, 0.5)
@@ -89,6 +101,11 @@ func (h *H) Gen(rng *rand.Rand, tier, prop string) core.Cfg {
 	if core.Chance(rng, 0.3) {
 		c.Sim.Faults["sink.status5xx"] = core.Pick(rng, 0.05, 0.2)
 		c.Sim.Faults["sink.transport"] = 0.05
+		if c.Sink == "gelf" {
+			c.Sim.Faults["net.dialerr"] = core.Pick(rng, 0.0, 0.1, 0.3)
+			c.Sim.Faults["net.writeerr"] = core.Pick(rng, 0.0, 0.1, 0.3)
+			c.Sim.Faults["net.shortwrite"] = core.Pick(rng, 0.0, 0.1, 0.3)
+		}
 	}
 	c.Sim.QuietAt = 20 * time.Second
 	n := core.Between(rng, 1, 30)
@@ -114,6 +131,14 @@ func (h *H) Gen(rng *rand.Rand, tier, prop string) core.Cfg {
 		}
 		if c.Sink == "loki" && core.Chance(rng, 0.5) {
 			e.TS = true
+		}
+		if c.Sink == "gelf" {
+			if core.Chance(rng, 0.6) {
+				e.HasHost = true
+				e.Host = core.Pick(rng, "node-1", "node-1", " ", "", "h\"q")
+			}
+			e.Level = core.Pick(rng, "", "", "error", "info", "warn", "bogus", "#3")
+			e.Time = core.Pick(rng, "", "", "rfc", "num", "junk")
 		}
 		if core.Chance(rng, 0.3) {
 			e.Pause = core.DurBetween(rng, time.Millisecond, 2*c.Flush)
@@ -192,6 +217,24 @@ func evJSON(e Ev) string {
 	if e.TS {
 		m["ts"] = tsOf(e)
 	}
+	if e.HasHost {
+		m["host"] = e.Host
+	}
+	switch e.Level {
+	case "":
+	case "#3":
+		m["level"] = 3
+	default:
+		m["level"] = e.Level
+	}
+	switch e.Time {
+	case "rfc":
+		m["time"] = gelfTime(e).Format(time.RFC3339Nano)
+	case "num":
+		m["time"] = rawNumber(strconv.FormatFloat(float64(gelfTime(e).UnixNano())/1e9, 'f', 3, 64))
+	case "junk":
+		m["time"] = "yesterday"
+	}
 	// encoding/json replaces invalid UTF-8; build by hand to keep raw bytes
 	var sb strings.Builder
 	sb.WriteString("{")
@@ -210,10 +253,62 @@ func evJSON(e Ev) string {
 			fmt.Fprintf(&sb, "%d", v)
 		case string:
 			sb.WriteString(rawJSONString(v))
+		case rawNumber:
+			sb.WriteString(string(v))
 		}
 	}
 	sb.WriteString("}")
 	return sb.String()
+}
+
+type rawNumber string
+
+// gelfTime is the event's own time (in the past of the simulated clock, after 2001).
+func gelfTime(e Ev) time.Time {
+	return time.Unix(1600000000+int64(e.ID)*60, 123000000).UTC()
+}
+
+func gelfBlank(s string) bool {
+	return strings.TrimFunc(s, func(c rune) bool { return strings.ContainsRune(" \t\n\r\u000B\f\u001C\u001D\u001E\u001F", c) }) == ""
+}
+
+// gelfWant is the GELF 1.1 message of an event under the harness's gelf configuration (host_field host,
+// short_message_field f0 with default "none", full_message_field f1, timestamp_field time, level_field level):
+// the mandatory fields, and every other field as an additional field "_name" holding a string or a number.
+// The time stamp is compared separately (key "timestamp" is left out here).
+func gelfWant(e Ev) map[string]any {
+	w := map[string]any{"version": "1.1", "_id": float64(e.ID)}
+	w["host"] = "unknown"
+	if e.HasHost && !gelfBlank(e.Host) {
+		w["host"] = e.Host
+	}
+	w["short_message"] = "none"
+	if len(e.Fields) > 0 && !gelfBlank(e.Fields[0]) {
+		w["short_message"] = e.Fields[0]
+	}
+	if len(e.Fields) > 1 {
+		w["full_message"] = e.Fields[1]
+	}
+	if len(e.Fields) > 2 {
+		w["_f2"] = e.Fields[2]
+	}
+	if e.HasSvc {
+		w["_svc"] = e.Svc
+	}
+	switch e.Level {
+	case "":
+	case "error", "#3":
+		w["level"] = float64(3)
+	case "warn":
+		w["level"] = float64(4)
+	default: // info and unknown names
+		w["level"] = float64(6)
+	}
+	// through encoding/json, so that invalid UTF-8 compares like on the receiving side
+	b, _ := json.Marshal(w)
+	var out map[string]any
+	_ = json.Unmarshal(b, &out)
+	return out
 }
 
 // tsOf is the event's own time stamp in loki's format (unix nanoseconds, in the past of the simulated clock).
@@ -517,6 +612,76 @@ func (r *run) endpoint(c *simfasthttp.Call) simfasthttp.Reply {
 	return simfasthttp.Reply{Status: status, Body: body, Latency: time.Duration(simrt.Active().WorldRand().IntN(20)) * time.Millisecond}
 }
 
+// gelfChunk checks what one Write of the GELF output delivered to the server: null-terminated GELF messages.
+func (r *run) gelfChunk(conn int, chunk []byte, cut bool) {
+	r.requests++
+	req := r.requests
+	frames := bytes.Split(chunk, []byte{0})
+	last := frames[len(frames)-1]
+	frames = frames[:len(frames)-1]
+	if len(last) > 0 && !cut {
+		r.viol("frame-not-terminated", "gelf connection #%d write #%d: the data does not end with a null byte: %q", conn, req, trunc(chunk))
+	}
+	var ids []int
+	for i, f := range frames {
+		where := fmt.Sprintf("gelf connection #%d write #%d message #%d", conn, req, i)
+		doc, err := norm(f)
+		if err != nil {
+			r.viol("document-not-json", "%s is not valid JSON (%v): %q", where, err, trunc(f))
+			continue
+		}
+		m, isObj := doc.(map[string]any)
+		if !isObj {
+			r.viol("document-not-an-object", "%s is not a JSON object: %q", where, trunc(f))
+			continue
+		}
+		idf, has := m["_id"].(float64)
+		if !has {
+			r.viol("document-without-id", "%s has no _id: %q", where, trunc(f))
+			ids = append(ids, -1)
+			continue
+		}
+		id := int(idf)
+		e, known := r.byID[id]
+		if !known {
+			r.viol("unknown-document", "%s has unknown id %d", where, id)
+			continue
+		}
+		if e.Parent {
+			r.viol("split-parent-in-payload", "%s: the parent event of a split (id %d) appears in the payload", where, id)
+		}
+		ts, hasTS := m["timestamp"]
+		delete(m, "timestamp")
+		tsf, isNum := ts.(float64)
+		switch e.Time {
+		case "":
+			if hasTS {
+				r.viol("document-altered", "%s (id %d) carries a timestamp %v although the event has no time field", where, id, ts)
+			}
+		case "rfc", "num":
+			want := float64(gelfTime(e).UnixNano()) / 1e9
+			if !isNum || tsf < want-0.002 || tsf > want+0.002 {
+				r.viol("document-altered", "%s (id %d): timestamp is %v, the event's time is %.3f", where, id, ts, want)
+			}
+		default:
+			if !isNum || tsf < 1e9 {
+				r.viol("document-altered", "%s (id %d): timestamp is %v, expected the current time as a number", where, id, ts)
+			}
+		}
+		if want := gelfWant(e); !reflect.DeepEqual(want, m) {
+			r.viol("document-altered", "%s: GELF message of id %d is %v (without its timestamp), expected %v", where, id, m, want)
+		}
+		r.deliv[id] = append(r.deliv[id], delivery{id: id, request: req, ok: true, pos: i})
+		ids = append(ids, id)
+	}
+	for i := 1; i < len(ids); i++ {
+		if ids[i] >= 0 && ids[i-1] >= 0 && ids[i] <= ids[i-1] {
+			r.viol("payload-out-of-batch-order", "gelf connection #%d write #%d: messages are not in batch order: ids %v", conn, req, ids)
+			break
+		}
+	}
+}
+
 func trunc(b []byte) string {
 	if len(b) > 300 {
 		return string(b[:300]) + "..."
@@ -538,10 +703,13 @@ func (h *H) Run(cc core.Cfg, sim *simrt.Sim) *core.Outcome {
 	}
 	verdict := false
 	var broker *simkgo.Broker
+	var netSrv *simnet.Server
 	reason := sim.Run(func() {
 		seq++
 		name := fmt.Sprintf("h9_%d", seq)
 		simfasthttp.Install(r.endpoint)
+		netSrv = &simnet.Server{OnData: func(id int, b []byte, cut bool) { r.gelfChunk(id, b, cut) }}
+		simnet.Install(netSrv)
 		broker = simkgo.NewBroker()
 		broker.OnProduce = func(rs []*simkgo.Record) error {
 			r.requests++
@@ -577,7 +745,7 @@ func (h *H) Run(cc core.Cfg, sim *simrt.Sim) *core.Outcome {
 			}
 			return nil
 		}
-		typ := map[string]string{"es": "elasticsearch", "http": "http", "splunk": "splunk", "kafka": "kafka", "loki": "loki"}[cfg.Sink]
+		typ := map[string]string{"es": "elasticsearch", "http": "http", "splunk": "splunk", "kafka": "kafka", "loki": "loki", "gelf": "gelf"}[cfg.Sink]
 		static, err := fd.DefaultPluginRegistry.Get(pipeline.PluginKindOutput, typ)
 		if err != nil {
 			panic(err)
@@ -601,6 +769,8 @@ func (h *H) Run(cc core.Cfg, sim *simrt.Sim) *core.Outcome {
 			js = fmt.Sprintf(`{"endpoint":"http://splunk:8088/services/collector","token":"t","request_timeout":"1s",%s%s%s}`, common, gz, cp)
 		case "loki":
 			js = fmt.Sprintf(`{"address":"http://loki:3100","labels":[{"label":"app","value":"fd"}],"message_field":"f0","timestamp_field":"ts","connection_timeout":"1s",%s}`, common)
+		case "gelf":
+			js = fmt.Sprintf(`{"endpoint":"graylog:12201","reconnect_interval":%q,"connection_timeout":"1s","write_timeout":"1s","host_field":"host","short_message_field":"f0","default_short_message_value":"none","full_message_field":"f1","timestamp_field":"time","level_field":"level",%s}`, cfg.Reconnect.String(), common)
 		case "kafka":
 			js = fmt.Sprintf(`{"brokers":["sim:9092"],"default_topic":"logs","use_topic_field":true,"topic_field":"svc",%s}`, common)
 		}
@@ -647,6 +817,9 @@ func (h *H) Run(cc core.Cfg, sim *simrt.Sim) *core.Outcome {
 	if !verdict {
 		o.Inconclusive = "ended by " + reason
 		return o
+	}
+	if netSrv != nil && netSrv.Faults > 0 {
+		r.had5xx = true
 	}
 	// coverage: every deliverable event exactly once among the 2xx-answered payloads
 	retried := r.had5xx
